@@ -249,6 +249,9 @@ type CreateIndex struct {
 type CreateSequence struct {
 	Schema, Name string
 	IfNotExists  bool
+	Start        int64 // 0: default (1)
+	Increment    int64 // 0: default (1)
+	Cache        int64 // 0: default (1)
 }
 
 type FuncParam struct {
